@@ -2,7 +2,7 @@ SPECIFICATION Spec
 CONSTANTS
   T = 3
   Timeouts <- MCTimeouts
-  MaxOps = 4
+  MaxOps = 3
   OpsAllowed <- AllOps
   Busy = 2
 INVARIANT CallbacksOnce
